@@ -41,7 +41,29 @@ pub fn reference_tiling(b: &[u8]) -> Option<Vec<(usize, usize)>> {
     Some(tiles)
 }
 
+/// What two iteration items are compared by: the Debug rendering (Packet has no PartialEq).
+/// For a packet of more than 4 KiB that rendering costs milliseconds, so such items are
+/// compared by variant and header fields instead.
 fn render(r: &Result<Packet<'_>, RtcpParseError>) -> u64 {
+    macro_rules! big {
+        ($tag:expr, $p:expr) => {
+            if $p.length() > 4096 {
+                return fnv1a(FNV_INIT ^ $tag, &[$p.version() as u64, $p.type_() as u64, $p.count() as u64, $p.length() as u64].iter().flat_map(|x| x.to_le_bytes()).collect::<Vec<u8>>());
+            }
+        };
+    }
+    if let Ok(p) = r {
+        match p {
+            Packet::Sr(x) => big!(1, x),
+            Packet::Rr(x) => big!(2, x),
+            Packet::Sdes(x) => big!(3, x),
+            Packet::Bye(x) => big!(4, x),
+            Packet::App(x) => big!(5, x),
+            Packet::TransportFeedback(x) => big!(6, x),
+            Packet::PayloadFeedback(x) => big!(7, x),
+            Packet::Unknown(x) => big!(8, x),
+        }
+    }
     fnv1a(FNV_INIT, format!("{r:?}").as_bytes())
 }
 
@@ -67,10 +89,21 @@ pub struct Verdict {
     pub events: u64,
 }
 
-fn judge_inner(b: &[u8], t: &mut Tape, log: &mut Option<&mut Vec<String>>) -> Verdict {
+fn judge_inner(b: &[u8], t: &mut Tape, log: &mut Option<&mut Vec<String>>) -> Result<Verdict, ()> {
     let reference = reference_tiling(b);
     let mut v = Verdict { accepted: false, tiles: reference.as_ref().map(|t| t.len()).unwrap_or(0), err_at: None, violation: None, events: 1 };
-    let parsed = Compound::parse(b);
+    // stage 1: acceptance.  A call that unwinds has not accepted: for an input the length chain
+    // partitions that is this property's violation; for any other input it is C01's finding.
+    let parsed = match guarded(|| Compound::parse(b)) {
+        Ok(r) => r,
+        Err(p) => {
+            if let Some(tl) = &reference {
+                v.violation = Some(("Accept:tileable_not_accepted".into(), format!("Compound::parse unwound ({} at {}) on {} bytes that the length chain partitions into {} packets", p.msg, p.short_loc(), b.len(), tl.len())));
+                return Ok(v);
+            }
+            return Err(());
+        }
+    };
     v.accepted = parsed.is_ok();
     if let Some(l) = log.as_mut() {
         l.push(format!("Compound::parse({} bytes) -> {}; reference tiler: {:?}", b.len(), if v.accepted { "Ok" } else { "Err" }, reference.as_ref().map(|t| t.len())));
@@ -78,22 +111,35 @@ fn judge_inner(b: &[u8], t: &mut Tape, log: &mut Option<&mut Vec<String>>) -> Ve
     match (&parsed, &reference) {
         (Ok(_), None) => {
             v.violation = Some(("Accept:untileable_accepted".into(), format!("Compound::parse accepted {} bytes that the length chain does not partition", b.len())));
-            return v;
+            return Ok(v);
         }
         (Err(e), Some(tl)) => {
             v.violation = Some(("Accept:tileable_rejected".into(), format!("Compound::parse rejected {} bytes ({e:?}) although the length chain partitions them into {} packets", b.len(), tl.len())));
-            return v;
+            return Ok(v);
         }
-        (Err(_), None) => return v,
+        (Err(_), None) => return Ok(v),
         _ => {}
     }
     let tiles = reference.unwrap();
-    let want = expected_sequence(b, &tiles);
+    // stage 2: the per-tile oracle.  If Packet::parse itself unwinds on a tile the expected
+    // sequence is undefined (C01's finding): inconclusive.
+    let want = guarded(|| expected_sequence(b, &tiles)).map_err(|_| ())?;
     v.err_at = want.iter().position(|w| w.1);
+    // stage 3: reader histories.  Packet::parse returned normally on every tile the iterator
+    // has to visit, so an unwind here means the iterator did not yield what it must.
+    let it = parsed.unwrap();
+    match guarded(|| judge_histories(b, it, &tiles, &want, t, log, &mut v)) {
+        Ok(()) => {}
+        Err(p) => {
+            v.violation = Some(("Iter:unwound".into(), format!("iterating an accepted compound unwound ({} at {}) although Packet::parse returns normally on each of its tiles", p.msg, p.short_loc())));
+        }
+    }
+    Ok(v)
+}
 
+fn judge_histories<'a>(b: &'a [u8], mut it: Compound<'a>, tiles: &[(usize, usize)], want: &[(u64, bool)], t: &mut Tape, log: &mut Option<&mut Vec<String>>, v: &mut Verdict) {
     // history 1: next() x (items + 0..5 extra)
     let extra = t.choose(6);
-    let mut it = parsed.unwrap();
     let mut got = Vec::new();
     let mut steps = 0usize;
     loop {
@@ -104,7 +150,7 @@ fn judge_inner(b: &[u8], t: &mut Tape, log: &mut Option<&mut Vec<String>>) -> Ve
                 got.push(render(&r));
                 if got.len() > tiles.len() {
                     v.violation = Some(("Iter:more_items_than_tiles".into(), format!("the iterator yielded {} items for {} tiles", got.len(), tiles.len())));
-                    return v;
+                    return;
                 }
             }
             None => break,
@@ -119,22 +165,22 @@ fn judge_inner(b: &[u8], t: &mut Tape, log: &mut Option<&mut Vec<String>>) -> Ve
     for k in 0..got.len().min(want.len()) {
         if got[k] != want[k].0 {
             v.violation = Some(("Iter:item_differs".into(), format!("item {k} differs from Packet::parse of tile {k} (offset {}, {} bytes)", tiles[k].0, tiles[k].1)));
-            return v;
+            return;
         }
     }
     if got.len() < want.len() {
         v.violation = Some(("Iter:stopped_early".into(), format!("the iterator yielded {} items, expected {}", got.len(), want.len())));
-        return v;
+        return;
     }
     if got.len() > want.len() {
         v.violation = Some(("Iter:continued_after_error".into(), format!("the iterator yielded {} items but tile {} fails to parse and must be the last one yielded", got.len(), want.len() - 1)));
-        return v;
+        return;
     }
     for k in 0..extra {
         v.events += 1;
         if it.next().is_some() {
             v.violation = Some(("Iter:some_after_end".into(), format!("next() call {} after the end returned an item again", k + 1)));
-            return v;
+            return;
         }
     }
 
@@ -159,7 +205,7 @@ fn judge_inner(b: &[u8], t: &mut Tape, log: &mut Option<&mut Vec<String>>) -> Ve
                     Some(r) => {
                         if da > 0 {
                             v.violation = Some(("Iter:some_after_end".into(), "interleaved iterator A yielded after returning None".into()));
-                            return v;
+                            return;
                         }
                         ga.push(render(&r))
                     }
@@ -170,7 +216,7 @@ fn judge_inner(b: &[u8], t: &mut Tape, log: &mut Option<&mut Vec<String>>) -> Ve
                     Some(r) => {
                         if dc > 0 {
                             v.violation = Some(("Iter:some_after_end".into(), "interleaved iterator B yielded after returning None".into()));
-                            return v;
+                            return;
                         }
                         gc.push(render(&r))
                     }
@@ -181,7 +227,7 @@ fn judge_inner(b: &[u8], t: &mut Tape, log: &mut Option<&mut Vec<String>>) -> Ve
         let w: Vec<u64> = want.iter().map(|x| x.0).collect();
         if ga != w || gc != w {
             v.violation = Some(("Iter:interleaved_differs".into(), format!("two interleaved iterators yielded {} / {} items, expected {}", ga.len(), gc.len(), w.len())));
-            return v;
+            return;
         }
     }
 
@@ -197,20 +243,18 @@ fn judge_inner(b: &[u8], t: &mut Tape, log: &mut Option<&mut Vec<String>>) -> Ve
         let w: Vec<u64> = want.iter().map(|x| x.0).collect();
         if again != w {
             v.violation = Some(("Iter:reparse_differs".into(), "a fresh Compound::parse after a partial iteration iterates differently".into()));
-            return v;
+            return;
         }
         // and the partially advanced one finishes with the remaining items
         let rest: Vec<u64> = first.map(|r| render(&r)).take(tiles.len() + 2).collect();
         if rest != w[k.min(w.len())..] {
             v.violation = Some(("Iter:resume_differs".into(), format!("after {k} calls the iterator yielded {} more items, expected {}", rest.len(), w.len() - k.min(w.len()))));
-            return v;
         }
     }
-    v
 }
 
 pub fn judge(b: &[u8], t: &mut Tape, log: &mut Option<&mut Vec<String>>) -> Result<Verdict, ()> {
-    guarded(|| judge_inner(b, t, log)).map_err(|_| ())
+    judge_inner(b, t, log)
 }
 
 fn case_json(d: &[u8], tape: &[u32]) -> J {
@@ -236,6 +280,59 @@ fn gen_compound(r: &mut Rng, cfg: &GenCfg, hash_key: u64) -> Base {
         }
     }
     gen_datagram(r, cfg, 8, hash_key)
+}
+
+/// One delivery: judge it, account for it, record a violation.
+#[allow(clippy::too_many_arguments)]
+fn delivery(seed: u64, idx: u64, ctx: &mut Ctx<'_>, out: &mut Vec<Violation>, tr: &mut Rng, d: &[u8], script: &Script, fired: bool, source: &str, prov: &dyn Fn() -> J) {
+    if script.len() != 1 || !matches!(script[0], Fault::Hdr { .. }) || source != "length-field-sweep" {
+        for f in script {
+            ctx.stats.fault(f.kind_name(), 1);
+        }
+    }
+    let tape_vals: Vec<u32> = (0..48).map(|_| tr.u32()).collect();
+    let mut tape = Tape::replaying(tape_vals);
+    ctx.stats.evaluations += 1;
+    ctx.publish_raw(idx, d, &tape.vals_for_publish());
+    let Ok(v) = judge(d, &mut tape, &mut None) else {
+        ctx.stats.inconclusive_panics += 1;
+        return;
+    };
+    ctx.stats.events += v.events;
+    ctx.stats.count(if v.accepted { "compound_accepted" } else { "compound_rejected" }, 1);
+    if let Some(k) = v.err_at {
+        ctx.stats.probe(if k == 0 { "accepted_first_tile_fails" } else { "accepted_later_tile_fails" }, 1);
+    }
+    if v.accepted && v.tiles >= 4 {
+        ctx.stats.probe("accepted_with_4_or_more_tiles", 1);
+    }
+    if v.accepted && d.len() >= 65536 {
+        ctx.stats.probe("accepted_64k_or_more", 1);
+    }
+    let sig = [v.accepted as u64, v.tiles.min(12) as u64, v.err_at.map(|k| k as u64 + 1).unwrap_or(0), script.iter().fold(0u64, |a, f| a * 31 + f.kind() as u64 + 1), (d.len().min(1024) as u64 + 3) / 4];
+    ctx.stats.trace_digest ^= fnv1a(seed, &sig.iter().flat_map(|x| x.to_le_bytes()).collect::<Vec<u8>>());
+    if fired && d.len() >= 4 {
+        ctx.stats.sig(&sig);
+    }
+    let kind = match (fired, v.accepted) {
+        (false, _) => "intact",
+        (true, true) => "faulted-accepted",
+        (true, false) => "faulted-rejected",
+    };
+    if ctx.stats.wants_sample(kind, idx) && d.len() <= 160 {
+        ctx.stats.sample(kind, idx, || {
+            J::obj()
+                .set("source", source)
+                .set("faults", J::Arr(script.iter().map(|f| f.to_json()).collect()))
+                .set("deliver", hex(d))
+                .set("accepted", v.accepted)
+                .set("reference_tiles", v.tiles)
+                .set("first_failing_tile", v.err_at.map(|k| J::from(k)).unwrap_or(J::Null))
+        });
+    }
+    if let Some((class, detail)) = v.violation {
+        out.push(Violation { class, detail, episode: idx, case: case_json(d, &tape.rec), provenance: prov().set("faults", J::Arr(script.iter().map(|f| f.to_json()).collect())) });
+    }
 }
 
 impl Check for C11 {
@@ -278,52 +375,15 @@ impl Check for C11 {
             if !script.is_empty() && !fired {
                 continue;
             }
-            for f in script {
-                ctx.stats.fault(f.kind_name(), 1);
-            }
-            let tape_vals: Vec<u32> = (0..48).map(|_| tr.u32()).collect();
-            let mut tape = Tape::replaying(tape_vals);
-            ctx.stats.evaluations += 1;
-            let Ok(v) = judge(&d, &mut tape, &mut None) else {
-                ctx.stats.inconclusive_panics += 1;
-                continue;
-            };
-            ctx.stats.events += v.events;
-            ctx.stats.count(if v.accepted { "compound_accepted" } else { "compound_rejected" }, 1);
-            if let Some(k) = v.err_at {
-                ctx.stats.probe(if k == 0 { "accepted_first_tile_fails" } else { "accepted_later_tile_fails" }, 1);
-            }
-            if v.accepted && v.tiles >= 4 {
-                ctx.stats.probe("accepted_with_4_or_more_tiles", 1);
-            }
-            let sig = [v.accepted as u64, v.tiles.min(12) as u64, v.err_at.map(|k| k as u64 + 1).unwrap_or(0), script.iter().fold(0u64, |a, f| a * 31 + f.kind() as u64 + 1), (d.len().min(1024) as u64 + 3) / 4];
-            ctx.stats.trace_digest ^= fnv1a(seed, &sig.iter().flat_map(|x| x.to_le_bytes()).collect::<Vec<u8>>());
-            if fired && d.len() >= 4 {
-                ctx.stats.sig(&sig);
-            }
-            let kind = match (fired, v.accepted) {
-                (false, _) => "intact",
-                (true, true) => "faulted-accepted",
-                (true, false) => "faulted-rejected",
-            };
-            if ctx.stats.wants_sample(kind, idx) && d.len() <= 160 {
-                ctx.stats.sample(kind, idx, || {
-                    J::obj()
-                        .set("source", base.source)
-                        .set("faults", J::Arr(script.iter().map(|f| f.to_json()).collect()))
-                        .set("deliver", hex(&d))
-                        .set("accepted", v.accepted)
-                        .set("reference_tiles", v.tiles)
-                        .set("first_failing_tile", v.err_at.map(|k| J::from(k)).unwrap_or(J::Null))
-                });
-            }
-            if let Some((class, detail)) = v.violation {
-                out.push(Violation {
-                    class,
-                    detail,
-                    episode: idx,
-                    case: case_json(&d, &tape.rec),
-                    provenance: base.provenance().set("base", hex(&base.bytes)).set("faults", J::Arr(script.iter().map(|f| f.to_json()).collect())),
+            delivery(seed, idx, ctx, out, &mut tr, &d, script, fired, base.source, &|| base.provenance().set("base", hex(&base.bytes)));
+        }
+        // the 16-bit length field, exhaustively (first SWEEP_EPISODES episodes own 16 values each)
+        for v in crate::lensweep::values_for(idx) {
+            for fr in crate::lensweep::compound_frames(v) {
+                let script: Script = vec![Fault::Hdr { tile: if fr.lead > 0 { 1 } else { 0 }, field: crate::faults::HdrField::Len, val: fr.v }];
+                crate::lensweep::with_frame(&fr, |d| {
+                    ctx.stats.fault("hdr-length-sweep", 1);
+                    delivery(seed, idx, ctx, out, &mut tr, d, &script, true, "length-field-sweep", &|| J::obj().set("source", fr.describe()));
                 });
             }
         }
@@ -360,7 +420,7 @@ impl Check for C11 {
         vec![
             "exhaustive in the single-fault dimension per base compound, sampled in bases, double faults and reader histories".into(),
             "per-tile oracle is Packet::parse on the reference tile, because the property defines iteration in terms of it; items are compared through their Debug rendering (Packet has no PartialEq)".into(),
-            "a call that unwinds is C01's finding and is counted as inconclusive here".into(),
+            "an unwind of Compound::parse on an input the length chain partitions, or of the iterator when Packet::parse returns normally on every tile, is a violation here (it did not accept / did not yield); any other unwind is C01's finding and is counted as inconclusive".into(),
         ]
     }
     fn components(&self) -> J {
